@@ -694,6 +694,7 @@ def run_one(name, prior, fault, rng):
         obs["injected"] = world.injected or bool(fault and (fault[0] == 0 or fault[1] == "wrongpin"))
         peer = state_box.get("state")
         obs["peer_paired"] = bool(getattr(peer, "has_paired", False)) if peer is not None else None
+        obs["peer_verified"] = bool(peer.has_authenticated) if (name == "mrp" and peer is not None) else None
         return obs
     finally:
         logging.disable(logging.NOTSET)
@@ -880,12 +881,202 @@ PROOF_REPLY = {"setup:m4": True, "legacy:proof": True}
 
 
 def fault_space(name, prior, rng):
-    """Recon: fault-free run on the real code -> list of (index, kind, variant) to inject."""
-    if name == "dmap":
-        return None, [(1, k, v) for k, v in dmap_variants()]
+    """Recon: fault-free run on the real code -> (observation, [(index, kind, variant)])."""
     base = run_one(name, prior, None, rng.fork("recon"))
+    if name == "dmap":
+        return base, [(0, k, v) for k, v in dmap_variants()]
     faults = [(0, "disconnect", "refused")]
-    for i, reply in enumerate(base["replies"], 1):
+    for i, reply in enumerate(base.get("replies", []), 1):
         for kind, variant in variants_for(reply, PROOF_REPLY.get(reply.label, False)):
             faults.append((i, kind, variant))
     return base, faults
+
+
+def script_name(name, prior):
+    return "companion-reauth" if (name == "companion" and prior) else name
+
+
+def label_of(name, base, idx):
+    if name == "dmap":
+        return "request"
+    if idx == 0:
+        return "connect"
+    replies = base.get("replies", [])
+    return replies[idx - 1].label if idx - 1 < len(replies) else "?"
+
+
+def canon_obs(obs):
+    """(outcome, svc changed, settings changed, paired) as the model prints it."""
+    if obs.get("harness_error"):
+        return "harness-error " + obs["harness_error"]
+    err = obs.get("err")
+    if err is None:
+        outcome = "ok" if obs.get("paired") else "silent"
+    elif err in ("pairing", "connection"):
+        outcome = "error"
+    else:
+        outcome = "error:other"
+    old = obs.get("prior")
+    settings = obs.get("settings") or {}
+    return "%s %d %d %d" % (outcome, obs.get("svc") != old, settings.get(obs.get("slot")) != old,
+                            bool(obs.get("paired")))
+
+
+def canon_model(ans):
+    parts = ans.split(" ")
+    if len(parts) != 4:
+        return ans
+    if parts[0] in ("error:pairing", "error:connection"):
+        parts[0] = "error"
+    return " ".join(parts)
+
+
+def oracle(name, obs, fault):
+    """The property evaluated directly on the observation (independent of the model).
+    Returns a list of (problem-tag, text)."""
+    out = []
+    if obs.get("harness_error"):
+        return [("harness-error", obs["harness_error"])]
+    old = obs.get("prior")
+    slot = obs.get("slot")
+    settings = obs.get("settings") or {}
+    stored = obs.get("stored_settings") or settings
+    others = [k for k, v in settings.items() if k != slot and v != "untouched-" + k]
+    others += [k for k, v in stored.items() if k != slot and v != "untouched-" + k and k not in others]
+    if fault is None:
+        if obs.get("err") is not None:
+            out.append(("success-raised:" + str(obs.get("exc_name")), "fault-free exchange raised %s: %s" % (obs.get("exc_name"), obs.get("exc_text"))))
+            return out
+        if not obs.get("paired"):
+            out.append(("success-not-reported", "fault-free exchange completed but has_paired is false"))
+        if not obs.get("svc") or obs.get("svc") == old:
+            out.append(("success-service-not-written", "service.credentials not written after a complete exchange"))
+        if settings.get(slot) != obs.get("svc") or stored.get(slot) != obs.get("svc"):
+            out.append(("success-settings-not-written", "settings.protocols.%s.credentials differs from service.credentials" % slot))
+        if others:
+            out.append(("other-settings-changed", "credentials of other protocols changed: %s" % others))
+        events = obs.get("events", [])
+        awaits = [i for i, e in enumerate(events) if e in ("recv", "connect")]
+        writes = [i for i, e in enumerate(events) if e in ("storeService", "storeSettings", "setPaired")]
+        if awaits and writes and min(writes) < max(awaits):
+            out.append(("write-before-exchange-complete", "%s happened before the last reply was received: %s" % (events[min(writes)], events)))
+        if name != "dmap" and (obs.get("paired_mid") or obs.get("svc_mid") != old):
+            out.append(("write-in-begin", "has_paired / credentials already set when begin() returned"))
+        if name == "mrp" and obs.get("peer_verified") is False:
+            out.append(("verification-round-missing", "MRP pairing reported success but the device never saw a completed pair-verify"))
+        return out
+    if not obs.get("injected"):
+        out.append(("fault-not-injected", "harness could not inject the fault (exchange has no such message)"))
+        return out
+    err = obs.get("err")
+    if err is None:
+        out.append(("no-error-raised", "neither begin() nor finish() raised although the exchange failed"))
+    elif err not in ("pairing", "connection"):
+        out.append(("error-class:" + str(obs.get("exc_name")), "%s escaped from %s(): not a pairing or connection error (%s)" % (obs.get("exc_name"), obs.get("where"), obs.get("exc_text"))))
+    if obs.get("paired"):
+        out.append(("has-paired-true", "has_paired is true after a failed exchange"))
+    if obs.get("svc") != old:
+        out.append(("service-credentials-changed", "service.credentials %r -> %r after a failed exchange" % (old, obs.get("svc"))))
+    if settings.get(slot) != old or stored.get(slot) != old:
+        out.append(("settings-credentials-changed", "settings.protocols.%s.credentials %r -> %r after a failed exchange" % (slot, old, settings.get(slot))))
+    if others:
+        out.append(("other-settings-changed", "credentials of other protocols changed: %s" % others))
+    return out
+
+
+def case_rng(ctx, name, prior, fault, rep=0):
+    return ctx.rng.fork(name, int(prior), *(fault or ("none",)), rep)
+
+
+def evaluate(ctx, name, prior, fault, base, rep=0):
+    """One case on the real code + oracle; returns (case, obs)."""
+    obs = run_one(name, prior, fault, case_rng(ctx, name, prior, fault, rep))
+    idx, kind, variant = fault if fault else (None, None, None)
+    label = label_of(name, base or obs, idx) if fault else "-"
+    case = {"handler": name, "prior": bool(prior), "index": idx, "message": label, "kind": kind,
+            "variant": variant, "rep": rep}
+    summary = {k: obs.get(k) for k in ("err", "exc_name", "exc_text", "where", "paired", "svc", "prior", "events")}
+    summary["settings"] = (obs.get("settings") or {}).get(obs.get("slot"))
+    for tag, text in oracle(name, obs, fault):
+        sig = "%s:%s:%s:%s" % (name, label if fault else "fault-free", kind or "none", tag)
+        ctx.fail(sig, case, summary,
+                 "fault -> pairing/connection error raised, stored credentials untouched, has_paired false; "
+                 "fault-free -> credentials written to service and settings, has_paired true", text)
+    return case, obs
+
+
+def run(ctx, only=None):
+    ctx.exhaustive = True
+    lines, pending = [], []
+    reps = ctx.scale(1, 3)
+    for name in HANDLERS:
+        for prior in (False, True):
+            if only is not None and (name, bool(prior)) != (only["handler"], only["prior"]):
+                continue
+            script = script_name(name, prior)
+            base, faults = fault_space(name, prior, ctx.rng.fork(name, int(prior)))
+            if only is not None:
+                fault = None if only["index"] is None else (only["index"], only["kind"], only["variant"])
+                evaluate(ctx, name, prior, fault, base, only.get("rep", 0))
+                continue
+            # --- fault-free run: trace, applicability table, success clause
+            case, obs = evaluate(ctx, name, prior, None, base)
+            ctx.case(["free", name, prior], True, sample={"handler": name, "prior": bool(prior), "events": obs.get("events")})
+            ctx.note("handler:" + name)
+            trace = [e for e in obs.get("events", []) if e != "listen"]
+            lines.append("trace " + script)
+            pending.append(("trace", case, ",".join(trace) or "-"))
+            lines.append("run %s - -" % script)
+            pending.append(("run", case, canon_obs(obs)))
+            per_index = {}
+            for (i, k, _v) in faults:
+                per_index.setdefault(i, set()).add(k)
+            n_await = (max(per_index) + 1) if per_index else 0
+            for i in range(n_await + 1):
+                lines.append("app %s %d" % (script, i))
+                want = ",".join(sorted(per_index[i])) if i in per_index else "none"
+                pending.append(("app", dict(case, index=i), want))
+            # --- every await point x every applicable fault kind / variant
+            for fault in faults:
+                nrep = reps if fault[1] == "garbage" else 1
+                for rep in range(nrep):
+                    case, obs = evaluate(ctx, name, prior, fault, base, rep)
+                    ctx.case([name, prior, list(fault), rep], fault[0] >= 2 or name == "dmap",
+                             sample={"case": case, "raised": obs.get("exc_name"), "where": obs.get("where"),
+                                     "paired": obs.get("paired")})
+                    ctx.note("kind:" + fault[1])
+                    ctx.note("class:" + str(obs.get("err")))
+                    lines.append("run %s %d %s" % (script, fault[0], fault[1]))
+                    pending.append(("run", case, canon_obs(obs)))
+    if only is not None:
+        return
+    answers = ctx.lean(lines)
+    for (what, case, impl), ans, line in zip(pending, answers, lines):
+        model = ans
+        if what == "run":
+            model = canon_model(ans)
+        elif what == "trace":
+            model = ",".join(x for x in ans.split(",") if x != "guard")
+        elif what == "app" and ans not in ("none", "-", "bad-op"):
+            model = ",".join(sorted(ans.split(",")))
+        ctx.validated()
+        if model != impl:
+            ctx.disagree(dict(case, line=line), impl, ans, where=what)
+
+
+def replay(ctx, failure):
+    c2 = type(ctx)(ctx.prop, ctx.tier, ctx.seed, ctx.driver.driver_rel)
+    run(c2, only=failure["case"])
+    return any(f["sig"] == failure["sig"] for f in c2.failures) or bool(c2.failures)
+
+
+def match_finding(failure, entry):
+    """A known finding names handler + message + failure mode; the fault kind may be any of
+    the listed ones."""
+    m = entry.get("match") or {}
+    parts = failure["sig"].split(":")
+    if len(parts) < 4:
+        return False
+    handler, message, kind, tag = parts[0], parts[1], parts[2], ":".join(parts[3:])
+    return (handler == m.get("handler") and message == m.get("message") and kind in m.get("kinds", [])
+            and tag == m.get("problem"))
